@@ -10,6 +10,13 @@ CLAIMED = {
                 note='R-model (exact real arithmetic on finite f64; bit-exact on small dyadic inputs by the stated certificate); library models of '
                 'std/anyhow containers trusted and validated against the native crate each run; bounds as listed in evidence.'),
 }
+CLAIMED['C02'] = dict(design='2/C02', text='Every Add/Sub/Mul/Neg impl body that the MIR defines for the 7x7 operand kinds (f64, &DecisionVariable, &Parameter, Linear, '
+    'Quadratic, Polynomial, Function; macro-generated impls included) is executed symbolically: operands with <=2 non-constant terms, every id '
+    'pattern over {0,1,2}, symbolic real coefficients; z3 proves coefficient-wise agreement of the result message with the exact polynomial '
+    'sum/difference/product within the documented epsilon-dropping allowance, that no term is lost by the result type, and that the term '
+    'iterators yield sorted ids summing to the polynomial.',
+    note='R-model; coefficient domain 0 or magnitude in [2^-10,2^10] (positive only for the larger operand pairs, recorded per harness); '
+    'quadratic operands without duplicate positions; Function operands with the oneof set; library models trusted and validated natively each run.')
 NOT_APPLICABLE = {
     'C20': 'artifact round-trip lives in ocipkg/tar/sha2/serde_json/chrono and the file system: none of it is in the crate MIR and all of it is foreign/IO under Kani; a model would verify the model, not the code',
 }
